@@ -4,7 +4,7 @@ from ..core import hx, lst
 from ..ref import L, to32, le
 
 REQUIRED = ['l-1', 'l', 'l+1', 'kl', 'wide-max', 'wide-kl', 'batch0', 'batch1', 'batchN', 'canon-accept',
-            'canon-reject', 'mont-final-sub', 'from-int', 'hash', 'sum-empty']
+            'canon-reject', 'mont-final-sub', 'from-int', 'hash', 'sum-empty', 'near-l', 'words', 'sum-carry']
 
 
 def sc(v):
@@ -35,6 +35,11 @@ def gen(ctx, size):
     ctx = _Proxy(ctx, add)
     # reducing constructors over corner list (always) + random fill
     for c, v in vals._SCORNERS + vals._DIGITS:
+        ctx.add('sc.mod', to32(v).hex(), expect=E(v), cls=c)
+        ok = v < L
+        ctx.add('sc.canon', to32(v).hex(), expect=E(v) if ok else ['none'], cls=[c, 'canon-accept' if ok else 'canon-reject'])
+    # values that agree with l on a prefix or suffix of bits and differ at one position; word patterns
+    for c, v in vals._SNEAR + vals._SWORDS:
         ctx.add('sc.mod', to32(v).hex(), expect=E(v), cls=c)
         ok = v < L
         ctx.add('sc.canon', to32(v).hex(), expect=E(v) if ok else ['none'], cls=[c, 'canon-accept' if ok else 'canon-reject'])
@@ -130,6 +135,31 @@ def gen(ctx, size):
     # sums and products
     ctx.add('sc.sum', '[]', expect=E(0), cls='sum-empty')
     ctx.add('sc.product', '[]', expect=E(1), cls='sum-empty')
+    # sums whose integer partial sums carry through all-ones words: x + (2^k - x), word patterns with 1, long runs
+    wp = [v for c, v in vals._SWORDS if v < L]
+    directed = []
+    for x in wp:
+        directed.append([x, 1])
+        directed.append([1, x])
+        directed.append([x, x])
+    for k in (64, 128, 192, 252):
+        for _ in range(4):
+            x = rng.randrange(1 << k)
+            directed.append([x, (1 << k) - x])
+            directed.append([x, (1 << k) - x - 1, 1])
+    directed.append([L - 1] * 17)
+    directed.append([(1 << 252) - 1] * 33)
+    for xs in directed:
+        xs = [x % L for x in xs]
+        pr = 1
+        for x in xs:
+            pr = pr * x % L
+        ctx.add('sc.sum', lst([sc(x) for x in xs]), expect=E(sum(xs)), cls=['sum', 'sum-carry'])
+        ctx.add('sc.product', lst([sc(x) for x in xs]), expect=E(pr), cls=['product'])
+        if len(xs) == 2:
+            ctx.add('sc.add', sc(xs[0]), sc(xs[1]), expect=E(xs[0] + xs[1]), cls='sum-carry')
+            ctx.add('sc.sub', sc(xs[0]), sc(xs[1]), expect=E(xs[0] - xs[1]), cls='sum-carry')
+            ctx.add('sc.mul', sc(xs[0]), sc(xs[1]), expect=E(xs[0] * xs[1]), cls='sum-carry')
     for _ in range(max(6, size // 6)):
         n = rng.choice([1, 2, 3, 7, 16, 64])
         xs = [vals.canon_scalar(rng)[1] for _ in range(n)]
